@@ -11,7 +11,7 @@ BOUNDS = {
 }
 OUTSIDE = "expression offsets are concrete per path (SortedDict hashes its keys); more than two intervals; offsets above 9"
 ASSUMPTIONS = ["sortedcontainers.SortedDict is used as is (real code); its keys are concrete", "intervaltree replaced by ModelTree for the section index (as C05)"]
-MAPOPS = ["set", "del", "pop", "popitem", "setdefault", "update", "clear", "assign", "del_absent"]
+MAPOPS = ["set", "del", "pop", "popitem", "setdefault", "update", "clear", "assign", "del_absent", "assign_mapping"]
 
 
 def shards(tier):
@@ -44,6 +44,8 @@ def shards(tier):
                     model = set()
                 elif op == "assign":
                     model = {6, 0}
+                elif op == "assign_mapping":
+                    model = {2, 3, 8}
             if ok:
                 seqs.append(list(ops))
     for i, ops in enumerate(seqs):
@@ -54,6 +56,7 @@ def shards(tier):
             other = "offset" if view == "addr" else "addr"
             out.append({"fn": "se_at", "consts": {"ops": ops, "q": q, "view": other, "readdr": 0}, "timeout": 600, "twin": "first", "cover": "first"})
     out.append({"fn": "se_at", "consts": {"ops": [], "q": "point", "readdr": 0}, "timeout": 600})
+    out.append({"fn": "se_huge", "consts": {}, "timeout": 300, "cover": False})
     out.append({"fn": "se_at", "consts": {"ops": [], "q": "step", "readdr": 0, "keys": [0, 3]}, "timeout": 900})
     out.append({"fn": "se_at", "consts": {"ops": [], "q": "step", "readdr": 1, "keys": [1]}, "timeout": 900})
     out.append({"fn": "se_at", "consts": {"ops": [], "q": "range", "readdr": 1}, "timeout": 600})
